@@ -160,6 +160,18 @@ def _index(case, ctx, g):
     B = cf @ cf.T + torch.diag(var)
     ctx.close("index_kernel", ik(i1, i2).to_dense(), B[i1.squeeze(-1)][:, i2.squeeze(-1)], "direct", cls="index")
     ctx.close("index_kernel", ik.covar_matrix.to_dense(), B, "direct", cls="index:covar_matrix")
+    # the dense formula of the CURRENT parameters: evaluation mode, another state loaded / assigned, evaluated again
+    ik.eval()
+    with torch.no_grad():
+        ik(i1, i2).to_dense()
+        for how in ("load_state_dict", "setter"):
+            if how == "load_state_dict":
+                ik.load_state_dict({k_: v_ + 0.5 * util.randn(g, *v_.shape) if k_.startswith(("raw_", "covar_factor")) else v_ for k_, v_ in ik.state_dict().items()})
+            else:
+                ik.var = ik.var.detach() * 1.7 + 0.1
+            cf, var = ik.covar_factor.detach(), ik.var.detach()
+            B2 = cf @ cf.T + torch.diag(var)
+            ctx.close("index_kernel", ik(i1, i2).to_dense(), B2[i1.squeeze(-1)][:, i2.squeeze(-1)], "direct", cls="index:after_" + how)
 
 
 def _grid(case, ctx, g):
